@@ -943,9 +943,15 @@ class Index(IndexBase):
             return key
 
         if self._map is None and offset is not None: # loc_is_iloc
+            # NOTE: the labels are the positions 0..n-1; as with a mapped index, labels that are not held do not match: they raise, or are dropped if partial_selection is True
+            length = self.__len__()
+
             if key.__class__ is slice:
                 if key == NULL_SLICE:
-                    return slice(offset, self.__len__() + offset)
+                    return slice(offset, length + offset)
+                for attr in (key.start, key.stop): #type: ignore
+                    if attr is not None and not self.__contains__(attr):
+                        raise LocInvalid('Invalid loc given in a slice', attr)
                 return slice_to_inclusive_slice(key, offset) #type: ignore
 
             if key.__class__ is np.ndarray:
